@@ -328,9 +328,19 @@ def coqchk():
 
 
 # ----------------------------------------------------------------------------- generic differential run
-def run_impl_sharded(drv, cases, workdir, shards=8, **kw):
+def run_impl_sharded(drv, cases, workdir, shards=8, per_proc=60, **kw):
     if len(cases) < 64 or shards <= 1:
         return run_impl(drv, cases, workdir, **kw)
+    # a driver process keeps what the code under test never closes (the sockets of every proxy it started: one UDP
+    # socket with an ephemeral port per backend, ...) until it exits: no more than [per_proc] cases per process, so that a
+    # long run does not use up the machine's ephemeral ports (a backend whose socket cannot be opened is silently left
+    # out of the rotation by CreateRoundRobinBackend: seen as lost deliveries late in a 5000-scenario run)
+    if len(cases) > shards * per_proc:
+        res = {}
+        step = shards * per_proc
+        for k in range(0, len(cases), step):
+            res.update(run_impl_sharded(drv, cases[k:k + step], workdir, shards=shards, per_proc=per_proc, **kw))
+        return res
     chunks = [cases[i::shards] for i in range(shards)]
 
     def one(ic):
